@@ -25,4 +25,4 @@ DELIVERABLES, all inside /tmp/seed-{pid}-{n}/SEED/ (create it):
   - patch.diff : `git diff` of your change against HEAD (relative to the repo root; must apply with `git apply` on a clean checkout of HEAD). The patch must NOT contain the demonstration.
   - a demonstration: a new Go test file (give its intended path in the repo, e.g. database/ffldb/seed_demo_test.go, and put a copy in SEED/) or a small program, that FAILS with your change applied and PASSES without it. It may use package-internal access (same-package _test.go). It must be deterministic and finish in under 2 minutes.
   - meta.json : {{"property": "{pid}", "summary": "<one sentence: what was changed>", "needs": "<what specific interleaving/fault/sequence/input is needed for it to manifest>", "files_changed": [...], "demo": "<path of the demo test in the repo and the go test command to run it>", "ran": ["<commands you ran and their outcome, briefly>"]}}
-Verify all of it yourself: with the patch applied -> build ok, existing tests of touched packages pass, demo FAILS; with the patch reverted (git stash / git checkout) -> demo PASSES. Report the three file paths and a 5-line summary at the end. Leave the worktree in place (with the patch applied) when you finish; do not commit anything anywhere.""")
+IMPORTANT: never use `git stash` (the stash is shared by every worktree of /repo and other engineers are working in parallel): to switch your change off and on use `git apply -R SEED/patch.diff` and `git apply SEED/patch.diff`. Verify all of it yourself: with the patch applied -> build ok, existing tests of touched packages pass, demo FAILS; with the patch reverted (git apply -R SEED/patch.diff) -> demo PASSES. Report the three file paths and a 5-line summary at the end. Leave the worktree in place (with the patch applied) when you finish; do not commit anything anywhere.""")
